@@ -1,6 +1,7 @@
 //! C15 deduplicate_namespaces only removes redundant declarations.
 use crate::atree::*;
 use crate::common::*;
+use crate::gen::mixed;
 use crate::nsscope::*;
 use crate::props::c01::{err_class, norm};
 use serde::{Deserialize, Serialize};
@@ -184,12 +185,39 @@ pub fn run(tier: Tier) -> i32 {
             st.sample(|| json!({"tree": t.show()}));
         }
     });
-    if let Err(e) = require_nonzero(&stats, &["calls", "calls_that_removed", "serialisable_checked"]) {
+    // deeper shapes over a 12-spec menu: chains of four and the five-element shape root > r > [a > x, b]
+    let tiny = tiny_specs();
+    let tn = tiny.len() as u64;
+    let deep_total = tn.pow(4) + tn.pow(5);
+    let deep = par_range(&ctx, deep_total, |i, st| {
+        let tree = if i < tn.pow(4) {
+            let d = mixed(&[tn as usize; 4], i);
+            elem_from(&tiny[d[0]], "a").child(elem_from(&tiny[d[1]], "b").child(elem_from(&tiny[d[2]], "c").child(elem_from(&tiny[d[3]], "d"))))
+        } else {
+            let d = mixed(&[tn as usize; 5], i - tn.pow(4));
+            let specs: Vec<ElemSpec> = d.iter().map(|k| tiny[*k]).collect();
+            layout_tree(4, &specs)
+        };
+        let t = A::doc(vec![tree]);
+        // call targets: the document, the top element and the second element
+        for target in [0usize, 1, 1 + 1 + t.ch[0].nss.len() + t.ch[0].attrs.len()] {
+            let case = Case { tree: t.clone(), target };
+            let fails = eval_case(&case, st);
+            st.bump("calls");
+            st.bump("deep_shape_calls");
+            for f in fails {
+                st.fail(&case, f);
+            }
+        }
+        st.outcome(&("deep", i));
+    });
+    let stats = stats.merge(deep);
+    if let Err(e) = require_nonzero(&stats, &["calls", "deep_shape_calls", "calls_that_removed", "serialisable_checked"]) {
         eprintln!("MACHINERY: {}", e);
         return 2;
     }
     let cov = json!({
-        "rule": "every namespace layout of 1-3 elements (540 specs per element for 1-2 elements; chains and forks of 3 over a reduced menu), deduplicate_namespaces called on the document and on every element; distinct = distinct layouts",
+        "rule": "every namespace layout of 1-3 elements (540 specs per element for 1-2 elements; chains and forks of 3 over a reduced menu; chains of 4 and the five-element shape root > r > [a > x, b] over a 12-spec menu), deduplicate_namespaces called on the document and on every element; distinct = distinct layouts",
         "layouts": tot,
     });
     ctx.finish(stats, cov, vec!["hash iteration order observed, not controlled".into()])
